@@ -427,7 +427,7 @@ func (c *compiler) findTypedef(y *Type, parent Definition, qualifiedIdent string
 				// issue #50 - submodules can reference types in parent and in any
 				// other submodule w/o prefix
 				if m, isModule := p.(*Module); isModule && m.belongsTo != nil {
-					p = m.Parent().(Definition)
+					p = mainModule(m)
 				}
 			}
 		}
